@@ -1,4 +1,5 @@
 mod bdd_rec;
+mod cli_rec;
 mod ffi_rec;
 mod ser_rec;
 mod pure_rec;
@@ -24,6 +25,7 @@ fn main() {
         (Some("record"), Some("semiring")) => pure_rec::record_semiring(&args),
         (Some("record"), Some("ser")) => ser_rec::record(&args),
         (Some("record"), Some("ffi")) => ffi_rec::record(&args),
+        (Some("record"), Some("cli")) => cli_rec::record(&args),
         (Some("record"), Some("table")) => tables::record_table(&args),
         (Some("replay"), Some("bddvec")) => vec_replay::replay_bddvec(&args),
         (Some("replay"), Some("sddvec")) => vec_replay::replay_sddvec(&args),
